@@ -4,6 +4,7 @@
 #include <z3++.h>
 #include <chrono>
 #include <map>
+#include <unordered_set>
 #include <memory>
 
 namespace vs {
@@ -67,7 +68,9 @@ public:
     double dt = std::chrono::duration<double>(std::chrono::steady_clock::now() - t0).count();
     solverTime += dt;
     ++nQueries;
-    if (dt > slowThreshold) { fprintf(stderr, "slow query %.2fs (#%llu):", dt, (unsigned long long)nQueries); for (Node* n : cs) fprintf(stderr, "\n   %s", tm.str(n, 8).c_str()); fprintf(stderr, "\n"); }
+    if (dt > slowThreshold) { fprintf(stderr, "slow query %.2fs (#%llu):", dt, (unsigned long long)nQueries); for (Node* n : cs) fprintf(stderr, "\n   %s", tm.str(n, 8).c_str()); fprintf(stderr, "\n");
+      std::unordered_set<Node*> seen; std::vector<Node*> st(cs.begin(), cs.end()); int shown = 0;
+      while (!st.empty()) { Node* x = st.back(); st.pop_back(); if (!seen.insert(x).second) continue; if (x->op == ITE) { if (!x->x->pure && seen.insert(x->x).second && shown++ < 8) fprintf(stderr, "   atom: %s\n", tm.str(x->x, 7).c_str()); st.push_back(x->y); st.push_back(x->z); } else if (Terms::isAtom(x) && !x->pure && shown++ < 8) fprintf(stderr, "   atom: %s\n", tm.str(x, 7).c_str()); } }
     int res;
     if (r == z3::sat) {
       ++nSat; res = 1;
